@@ -258,6 +258,9 @@ func Open(path string, mode os.FileMode, options *Options) (db *DB, err error) {
 
 	// Default values for test hooks
 	db.ops.writeAt = db.file.WriteAt
+	if common.VerifEnabled {
+		db.ops.writeAt = db.verifWriteAt
+	}
 
 	if db.pageSize = options.PageSize; db.pageSize == 0 {
 		// Set the default page size to the OS page size.
@@ -425,9 +428,15 @@ func (db *DB) loadFreelist() {
 		if !db.hasSyncedFreelist() {
 			// Reconstruct free list by scanning the DB.
 			db.freelist.Init(db.freepages())
+			if common.VerifEnabled {
+				db.verifEvent("LoadFreelistScan", db.meta().Txid())
+			}
 		} else {
 			// Read free list from freelist page.
 			db.freelist.Read(db.page(db.meta().Freelist()))
+			if common.VerifEnabled {
+				db.verifEvent("LoadFreelistPage", db.meta().Txid())
+			}
 		}
 		if db.stats != nil {
 			db.stats.FreePageN = db.freelist.FreeCount()
@@ -513,6 +522,11 @@ func (db *DB) mmap(minsz int) (err error) {
 	// Memory-map the data file as a byte slice.
 	// gofail: var mapError string
 	// return errors.New(mapError)
+	if common.VerifEnabled {
+		if _, err = common.VerifIO(db, "mmap", int64(size), nil); err != nil {
+			return err
+		}
+	}
 	if err = mmap(db, size); err != nil {
 		lg.Errorf("[GOOS: %s, GOARCH: %s] mmap failed, size: %d, error: %v", runtime.GOOS, runtime.GOARCH, size, err)
 		return err
@@ -821,6 +835,9 @@ func (db *DB) beginTx() (*Tx, error) {
 	if db.freelist != nil {
 		db.freelist.AddReadonlyTXID(t.meta.Txid())
 	}
+	if common.VerifEnabled {
+		db.verifEvent("BeginRead", t.meta.Txid())
+	}
 
 	// Unlock the meta pages.
 	db.metalock.Unlock()
@@ -868,6 +885,9 @@ func (db *DB) beginRWTx() (*Tx, error) {
 	t.init(db)
 	db.rwtx = t
 	db.freelist.ReleasePendingPages()
+	if common.VerifEnabled {
+		db.verifEvent("BeginWrite", t.meta.Txid())
+	}
 	return t, nil
 }
 
@@ -881,6 +901,9 @@ func (db *DB) removeTx(tx *Tx) {
 
 	if db.freelist != nil {
 		db.freelist.RemoveReadonlyTXID(tx.meta.Txid())
+	}
+	if common.VerifEnabled {
+		db.verifEvent("EndRead", tx.meta.Txid())
 	}
 
 	// Unlock the meta pages.
@@ -1176,6 +1199,9 @@ func (db *DB) allocate(txid common.Txid, count int) (*common.Page, error) {
 	// Use pages from the freelist if they are available.
 	p.SetId(db.freelist.Allocate(txid, count))
 	if p.Id() != 0 {
+		if common.VerifEnabled {
+			db.verifAlloc(txid, p.Id(), count, true)
+		}
 		return p, nil
 	}
 
@@ -1199,10 +1225,16 @@ func (db *DB) allocate(txid common.Txid, count int) (*common.Page, error) {
 		}
 		if nextAllocSize > db.MaxSize {
 			db.Logger().Errorf("[GOOS: %s, GOARCH: %s] maximum db size reached, minSize: %d (allocSize: %d), db.MaxSize: %d", runtime.GOOS, runtime.GOARCH, minsz, nextAllocSize, db.MaxSize)
+			if common.VerifEnabled {
+				db.verifEvent("AllocRefused", txid)
+			}
 			return nil, berrors.ErrMaxSizeReached
 		}
 	}
 	if minsz >= db.datasz {
+		if common.VerifEnabled {
+			common.VerifYield(db, "remap")
+		}
 		if err := db.mmap(minsz); err != nil {
 			if err == berrors.ErrMaxSizeReached {
 				return nil, err
@@ -1215,6 +1247,9 @@ func (db *DB) allocate(txid common.Txid, count int) (*common.Page, error) {
 	// Move the page id high water mark.
 	curPgid := db.rwtx.meta.Pgid()
 	db.rwtx.meta.SetPgid(curPgid + common.Pgid(count))
+	if common.VerifEnabled {
+		db.verifAlloc(txid, p.Id(), count, false)
+	}
 
 	return p, nil
 }
@@ -1240,9 +1275,19 @@ func (db *DB) grow(sz int) error {
 		if runtime.GOOS != "windows" {
 			// gofail: var resizeFileError string
 			// return errors.New(resizeFileError)
+			if common.VerifEnabled {
+				if _, err := common.VerifIO(db, "truncate", int64(sz), nil); err != nil {
+					return fmt.Errorf("file resize error: %s", err)
+				}
+			}
 			if err := db.file.Truncate(int64(sz)); err != nil {
 				lg.Errorf("[GOOS: %s, GOARCH: %s] truncating file failed, size: %d, db.datasz: %d, error: %v", runtime.GOOS, runtime.GOARCH, sz, db.datasz, err)
 				return fmt.Errorf("file resize error: %s", err)
+			}
+		}
+		if common.VerifEnabled {
+			if _, err := common.VerifIO(db, "fsync", 0, nil); err != nil {
+				return fmt.Errorf("file sync error: %s", err)
 			}
 		}
 		if err := db.file.Sync(); err != nil {
